@@ -98,6 +98,8 @@ type caseT struct {
 	Conc *concT `json:",omitempty"`
 	// Cfg != nil: a configuration case (cfg.go): only the option list matters
 	Cfg *cfgCaseT `json:",omitempty"`
+	// Chain != nil: a handler-chain case of the app layer (chain.go)
+	Chain *chainCaseT `json:",omitempty"`
 }
 
 type concT struct {
@@ -1336,6 +1338,12 @@ func main() {
 		for i := 0; i < a.N/10; i++ {
 			fmt.Fprintln(w, emitCfg(fmt.Sprintf("c13o-%d-%d", a.Seed, i), genCfgCase(r), st))
 		}
+		for i, k := range fixedChainCases() {
+			fmt.Fprintln(w, emitChain(fmt.Sprintf("c13g-fix-%d", i), k, st))
+		}
+		for i := 0; i < a.N/20; i++ {
+			fmt.Fprintln(w, emitChain(fmt.Sprintf("c13g-%d-%d", a.Seed, i), genChainCase(r), st))
+		}
 		nb := 6
 		if a.Tier == "thorough" {
 			nb = 40
@@ -1349,6 +1357,10 @@ func main() {
 			id, err := hx.CaseFromComment(line, &k)
 			if err != nil {
 				fmt.Fprintf(w, "# cannot replay %q: %v\n", id, err)
+				continue
+			}
+			if k.Chain != nil {
+				fmt.Fprintln(w, emitChain(id, *k.Chain, nil))
 				continue
 			}
 			if k.Cfg != nil {
